@@ -54,3 +54,37 @@ Example C08_h264_example :
   = [DFrame [[65]; [66; 7]; [67]]; DFrame [[101]; [9]; [8]]; DFrame [[70]]; DErr]
   /\ pts_equals_dts [24; 0; 1; 65; 0; 2; 5; 1] = Some true.
 Proof. vm_compute. split; reflexivity. Qed.
+
+(* ---- the translated kernels (tools/go2coq, regenerated from the Go source on every run) ----
+   The length tests and caps of rtph264/decoder.go - len(payload) < 1, < 2, the accumulation d.fragmentsSize +=
+   len(payload[2:]) and its cap > h264.MaxAccessUnitSize, the STAP-A size field, its two length tests, the NALU-count
+   cap and the access-unit size cap of addToFrameBuffer with their accumulations - ARE the tests of
+   Model.decode_nalus / stapa_walk / add_fb (the constants are GVG.Consts' h264_max_au, h264_max_nalus). *)
+From Coq Require Import ZArith.
+From GVG Require Import Kern.
+From GV_h264 Require Import BridgeLib Bridge.
+Open Scope Z_scope.
+
+Theorem C08_h264_kernels_are_the_code :
+  forall (pl pl1 data rest : bytes) (b0 p0 p1 fs fl l fsz add : N),
+  byte p0 -> byte p1 -> Z.of_N (fs + nlen data) < i64max -> Z.of_N (fl + l) < i64max -> Z.of_N (fsz + add) < i64max ->
+  k_h264_dec_short (Z.of_N (nlen pl)) = match pl with [] => true | _ :: _ => false end /\
+  k_h264_dec_fushort (Z.of_N (nlen (b0 :: pl1))) = match pl1 with [] => true | _ :: _ => false end /\
+  k_h264_dec_cap (k_h264_dec_acc (Z.of_N fs) (Z.of_N (nlen data))) (Z.of_N cap) = (cap <? fs + nlen data)%N /\
+  k_h264_dec_acc (Z.of_N fs) (Z.of_N (nlen data)) = Z.of_N (fs + nlen data) /\
+  k_h264_stapa_short (Z.of_N (nlen pl)) = match pl with _ :: _ :: _ => false | _ => true end /\
+  k_h264_stapa_size (Z.of_N p0) (Z.of_N p1) = Z.of_N (p0 * 256 + p1) /\
+  k_h264_stapa_over (Z.of_N (p0 * 256 + p1)) (Z.of_N (nlen rest)) = (nlen rest <? p0 * 256 + p1)%N /\
+  k_h264_fb_count (Z.of_N fl) (Z.of_N l) (Z.of_N maxn) = (maxn <? fl + l)%N /\
+  k_h264_fb_size (Z.of_N fsz) (Z.of_N add) (Z.of_N cap) = (cap <? fsz + add)%N /\
+  k_h264_fb_len_acc (Z.of_N fl) (Z.of_N l) = Z.of_N (fl + l) /\
+  k_h264_fb_size_acc (Z.of_N fsz) (Z.of_N add) = Z.of_N (fsz + add).
+Proof. exact caps_kernels_are_the_code. Qed.
+Print Assumptions C08_h264_kernels_are_the_code.
+
+Example C08_h264_example_kernels :
+  k_h264_dec_cap (k_h264_dec_acc (Z.of_N cap - 10) 10) (Z.of_N cap) = false /\
+  k_h264_dec_cap (k_h264_dec_acc (Z.of_N cap - 10) 11) (Z.of_N cap) = true /\
+  k_h264_stapa_size 1 2 = 258 /\ k_h264_stapa_over 258 257 = true /\ k_h264_stapa_over 258 258 = false /\
+  k_h264_fb_count 20 1 (Z.of_N maxn) = (Z.of_N maxn <? 21) /\ k_h264_dec_short 0 = true /\ k_h264_dec_fushort 1 = true.
+Proof. vm_compute. repeat split. Qed.
